@@ -74,7 +74,15 @@ def gen(ctx):
     for _ in range(ctx.n(80, 600)):
         n = rng.randint(2, 9)
         kind = rng.choice(["corr", "corr", "signed", "zerodiag", "asym",
-                           "undefined"])
+                           "undefined", "asym_undirected"])
+        if kind == "asym_undirected":
+            # an asymmetric similarity (a directed measure such as a
+            # correlation strength) handed to an undirected network
+            out.append({"S": similarity(rng, n, "asym"), "kind": kind,
+                        "grid": grid(rng, n), "directed": False,
+                        "ops": [rng.choice(["thr", "nl", "thr", "same"])
+                                for _ in range(rng.randint(1, 5))]})
+            continue
         if kind == "undefined":
             # the similarity of a constant series (a masked grid point) with
             # anything is undefined: nan entries never exceed a threshold
@@ -151,6 +159,8 @@ def run_case(ctx, c, terms=None):
                 elif op == "nl":
                     nl_flag = not nl_flag
                     net.set_non_local(nl_flag)
+                elif op == "same":       # the current threshold once more
+                    net.set_threshold(float(net.threshold()))
             except Exception as e:
                 ctx.violation(f"ClimateNetwork.{op}", "raises", dict(
                     key, err=f"{type(e).__name__}: {e}"),
@@ -181,7 +191,8 @@ def run_case(ctx, c, terms=None):
                               "disagree with the adjacency",
                               dict(k2, n_links=int(net.n_links),
                                    density=float(net.link_density)), {})
-            if not c["directed"] and not np.array_equal(A, A.T):
+            if not c["directed"] and c["kind"] != "asym_undirected" \
+                    and not np.array_equal(A, A.T):
                 ctx.violation("ClimateNetwork.adjacency",
                               "asymmetric for a symmetric similarity", k2, {})
             if req is not None and not net.non_local():
